@@ -41,16 +41,6 @@ def _getattr_dynamic(it, args, kwargs, node, anchor):
     return it.st.register(SymCallable("plugin_op", spec))
 
 
-# ---------------------------------------------------------------- ConfigService.metric_processors / span_processors
-for _nm in ("metric_processors", "span_processors", "snapshot_decorators", "resource_providers"):
-    c = contract(CS, "ConfigService." + _nm, ["C17", "C20"], coarse=True)
-    c.param("self", OBJ("ConfigService"))
-    c.result = FRESH("list")
-    c.logged = _nm
-    c.modifies = lambda S_: []
-    c.ens("list-of-plugins", lambda S_: And(S_.new.llen(S_.result) >= 0, S_.elems(S_.result, HOSTOBJ)))
-    c.props = []
-
 # ---------------------------------------------------------------- MetricActionContext._process_metric
 c = contract(MA, "MetricActionContext._process_metric", ["C17"])
 c.param("self", OBJ("MetricActionContext")).param("metric", OBJ("MetricDefinition"))
